@@ -1,8 +1,257 @@
-/-! Line-protocol driver for component `Queue` (stub; the component owner replaces `run`). -/
+import Lean.Data.Json
+import PSO.Model.Queue
+
+/-! Line-protocol driver for component `queue` (model `PSO.Queue`).  One JSON object per line.
+
+Python values: `null`, `true/false`, integers, strings, `{"t":[…]}` tuple, `{"d":[[k,v],…]}` dict.
+
+```
+{"op":"fq","max":m,"ops":[["put",n] | ["get"] …]}
+     -> {"res":["ok"|"full"|"empty"|n …],"items":[…]}
+{"op":"plan","dec":"r"|"s","dt":V,"f":n,"args":[V…],"kw":[[k,V]…]}
+     -> {"plan":"local","args":[…],"kw":[…]}
+      | {"plan":"rep","cmd":V,"mode":"nocb"|"user"|"sync","timeout":V,"recv":null|{"f":V,"args":[…],"kw":[…]}}
+{"op":"unpack","cmd":V}          -> {"recv":null|{…}}
+{"op":"outcome","flag":b,"res":n|null,"err":code}   (what the sync wrapper does after the wait)
+     -> {"outcome":["value",r]|["raised",code]|["timeout"]}
+{"op":"sys","max":m,"progs":[[spec…]…],"labels":[L…],"skip":bool}
+     spec = {"dec","dt","f","args","kw"} as in "plan"
+     L = ["call",t] | ["timeout",t] | ["tick",hasLeader,isLeader,waitLeader,denied,idx,term] (0/1)
+       | ["answer",j,code] | ["rput",k] | ["rput",k,node,req]
+     -> {"ok":[bool…] (per label: was it enabled; without "skip" the run stops at the first false),
+         "hist":[…oldest first…],"queue":[[cmd,cb]…],"pend":[[key,cmd,cb]…],"counter":n,
+         "threads":[[next,phase]…]}
+```
+`resultOf (call ⟨t,k⟩) = 1000*t + k`, `resultOf (foreign k) = 900000 + k`.
+-/
 namespace Driver.Queue
+open Lean PSO.Queue
+
+def jn (n : Nat) : Json := toJson n
+
+partial def valOfJson (j : Json) : Except String Val :=
+  match j with
+  | .null => pure .none
+  | .bool b => pure (.bool b)
+  | .num _ => do let i ← j.getInt?; pure (.int i)
+  | .str s => pure (.str s)
+  | .arr _ => throw "bare array is not a value"
+  | .obj _ =>
+    match j.getObjVal? "t" with
+    | .ok a => do
+        let xs ← a.getArr?
+        let vs ← xs.toList.mapM valOfJson
+        pure (.tup vs)
+    | .error _ => do
+        let a ← j.getObjVal? "d"
+        let xs ← a.getArr?
+        let kvs ← xs.toList.mapM fun p => do
+          let pa ← p.getArr?
+          if h : pa.size = 2 then
+            let k ← pa[0].getStr?
+            let v ← valOfJson pa[1]
+            pure (k, v)
+          else throw "pair expected"
+        pure (.dict kvs)
+
+mutual
+partial def jsonOfVal : Val → Json
+  | .none => .null
+  | .bool b => .bool b
+  | .int n => toJson n
+  | .str s => .str s
+  | .tup xs => Json.mkObj [("t", .arr (xs.map jsonOfVal).toArray)]
+  | .dict kvs => Json.mkObj [("d", jsonOfKw kvs)]
+partial def jsonOfKw (kw : Kw) : Json :=
+  .arr (kw.map fun (k, v) => Json.arr #[.str k, jsonOfVal v]).toArray
+end
+
+def kwOfJson (j : Json) : Except String Kw := do
+  match ← valOfJson (Json.mkObj [("d", j)]) with
+  | .dict kvs => pure kvs
+  | _ => throw "kw"
+
+def specOfJson (j : Json) : Except String CallSpec := do
+  let dec ← (← j.getObjVal? "dec").getStr?
+  let dt ← match j.getObjVal? "dt" with
+    | .ok v => valOfJson v
+    | .error _ => pure Val.none
+  let f ← (← j.getObjVal? "f").getNat?
+  let args ← (← (← j.getObjVal? "args").getArr?).toList.mapM valOfJson
+  let kw ← kwOfJson (← j.getObjVal? "kw")
+  let d : Dec := if dec == "s" then .replicatedSync dt else .replicated
+  pure ⟨d, f, args, kw⟩
+
+def recvJson (cmd : Val) : Json :=
+  match received cmd with
+  | none => .null
+  | some (f, a, k) =>
+      Json.mkObj [("f", jsonOfVal f), ("args", .arr (a.map jsonOfVal).toArray), ("kw", jsonOfKw k)]
+
+def planJson (p : Plan) : Json :=
+  match p with
+  | .localRun a k =>
+      Json.mkObj [("plan", "local"), ("args", .arr (a.map jsonOfVal).toArray), ("kw", jsonOfKw k)]
+  | .replicate cmd mode =>
+      let (m, t) : String × Val := match mode with
+        | .nocb => ("nocb", .none)
+        | .user => ("user", .none)
+        | .sync t => ("sync", t)
+      Json.mkObj [("plan", "rep"), ("cmd", jsonOfVal cmd.toVal), ("mode", m), ("timeout", jsonOfVal t),
+                  ("recv", recvJson cmd.toVal)]
+
+def cmdJson : CmdRef → Json
+  | .call c => .arr #[jn c.t, jn c.k]
+  | .foreign k => .arr #["f", jn k]
+
+def cbJson : CbRef → Json
+  | .none => .null
+  | .user c => .arr #["user", jn c.t, jn c.k]
+  | .ares c => .arr #["ares", jn c.t, jn c.k]
+  | .remote n r => .arr #["remote", jn n, jn r]
+
+def optNat : Option Nat → Json
+  | none => .null
+  | some n => jn n
+
+def outcomeJson : Outcome → Json
+  | .value r => .arr #["value", optNat r]
+  | .raised e => .arr #["raised", jn e.code]
+  | .timeout => .arr #["timeout"]
+
+def respJson : Resp → Json
+  | .ok i t => .arr #["ok", jn i, jn t]
+  | .err e => .arr #["err", jn e.code]
+
+def evJson : Ev → Json
+  | .localRun c => .arr #["localRun", jn c.t, jn c.k]
+  | .enq c => .arr #["enq", jn c.t, jn c.k]
+  | .full c => .arr #["full", jn c.t, jn c.k]
+  | .renq k => .arr #["renq", jn k]
+  | .rfull k => .arr #["rfull", jn k]
+  | .deq m => .arr #["deq", cmdJson m]
+  | .appended m i t => .arr #["appended", cmdJson m, jn i, jn t]
+  | .forwarded m r => .arr #["forwarded", cmdJson m, optNat r]
+  | .dropped m w => .arr #["dropped", cmdJson m, jn w.code]
+  | .sent n r b => .arr #["sent", jn n, jn r, respJson b]
+  | .fired c res e => .arr #["fired", jn c.t, jn c.k, optNat res, jn e.code]
+  | .ret c o => .arr #["ret", jn c.t, jn c.k, outcomeJson o]
+
+def failOfCode : Nat → Except String Fail
+  | 0 => pure .success | 1 => pure .queueFull | 2 => pure .missingLeader | 3 => pure .discarded
+  | 4 => pure .notLeader | 5 => pure .leaderChanged | 6 => pure .requestDenied
+  | _ => throw "bad fail code"
+
+def labelOfJson (j : Json) : Except String Label := do
+  let a ← j.getArr?
+  if a.size = 0 then throw "empty label"
+  let op ← a[0]!.getStr?
+  let nat (i : Nat) : Except String Nat := do
+    if i < a.size then a[i]!.getNat? else throw "label arity"
+  match op with
+  | "call" => pure (.call (← nat 1))
+  | "timeout" => pure (.timeout (← nat 1))
+  | "tick" =>
+      pure (.tick ⟨(← nat 1) != 0, (← nat 2) != 0, (← nat 3) != 0, (← nat 4) != 0, ← nat 5, ← nat 6⟩)
+  | "answer" => pure (.answer (← nat 1) (← failOfCode (← nat 2)))
+  | "rput" =>
+      if a.size = 2 then pure (.remotePut (← nat 1) none)
+      else pure (.remotePut (← nat 1) (some (← nat 2, ← nat 3)))
+  | _ => throw s!"unknown label {op}"
+
+def resultOfStd : CmdRef → Nat
+  | .call c => 1000 * c.t + c.k
+  | .foreign k => 900000 + k
+
+/-- run, stopping at the first disabled label unless `skip` -/
+def runLabels (skip : Bool) : Sys → List Label → Sys × List Bool
+  | s, [] => (s, [])
+  | s, l :: ls =>
+    match s.step l with
+    | some s' => let (r, bs) := runLabels skip s' ls; (r, true :: bs)
+    | none => if skip then let (r, bs) := runLabels skip s ls; (r, false :: bs) else (s, [false])
+
+def phaseStr : Phase → String
+  | .start => "start" | .built => "built" | .waiting => "waiting"
+
+def keyJson : PendKey → Json
+  | .commit i t => .arr #["commit", jn i, jn t]
+  | .reply r => .arr #["reply", jn r]
+
+def handle (j : Json) : Except String Json := do
+  let op ← (← j.getObjVal? "op").getStr?
+  match op with
+  | "fq" =>
+      let m ← (← j.getObjVal? "max").getNat?
+      let ops ← (← j.getObjVal? "ops").getArr?
+      let mut q : FastQueue Nat := ⟨[], m⟩
+      let mut res : Array Json := #[]
+      for o in ops do
+        let a ← o.getArr?
+        if a.size = 2 then
+          let v ← a[1]!.getNat?
+          match q.putNowait v with
+          | some q' => q := q'; res := res.push "ok"
+          | none => res := res.push "full"
+        else
+          match q.getNowait with
+          | some (v, q') => q := q'; res := res.push (jn v)
+          | none => res := res.push "empty"
+      pure (Json.mkObj [("res", .arr res), ("items", .arr (q.items.map jn).toArray)])
+  | "plan" =>
+      let sp ← specOfJson j
+      pure (planJson (planOf sp))
+  | "unpack" =>
+      let v ← valOfJson (← j.getObjVal? "cmd")
+      pure (Json.mkObj [("recv", recvJson v)])
+  | "outcome" =>
+      let flag ← (← j.getObjVal? "flag").getBool?
+      if !flag then pure (Json.mkObj [("outcome", outcomeJson .timeout)])
+      else
+        let res : Option Nat := match j.getObjVal? "res" with
+          | .ok v => match v.getNat? with | .ok n => some n | .error _ => none
+          | .error _ => none
+        let e ← failOfCode (← (← j.getObjVal? "err").getNat?)
+        pure (Json.mkObj [("outcome", outcomeJson (outcomeOf res e))])
+  | "sys" =>
+      let m ← (← j.getObjVal? "max").getNat?
+      let progsJ ← (← j.getObjVal? "progs").getArr?
+      let progs ← progsJ.toList.mapM fun p => do
+        let a ← p.getArr?
+        a.toList.mapM specOfJson
+      let labels ← (← (← j.getObjVal? "labels").getArr?).toList.mapM labelOfJson
+      let skip := match j.getObjVal? "skip" with
+        | .ok (.bool b) => b
+        | _ => false
+      let s0 := Sys.init m progs resultOfStd
+      let (s, oks) := runLabels skip s0 labels
+      let threads := (List.range progs.length).map fun i =>
+        Json.arr #[jn (s.thr i).next, .str (phaseStr (s.thr i).phase)]
+      pure (Json.mkObj [
+        ("ok", .arr (oks.map Json.bool).toArray),
+        ("hist", .arr (s.hist.reverse.map evJson).toArray),
+        ("queue", .arr (s.q.items.map fun e => Json.arr #[cmdJson e.cmd, cbJson e.cb]).toArray),
+        ("pend", .arr (s.pend.map fun p => Json.arr #[keyJson p.key, cmdJson p.e.cmd, cbJson p.e.cb]).toArray),
+        ("counter", jn s.counter),
+        ("threads", .arr threads.toArray)])
+  | _ => throw s!"unknown op {op}"
+
+partial def loop (stdin stdout : IO.FS.Stream) : IO Unit := do
+  let line ← stdin.getLine
+  if line.isEmpty then return
+  let t := line.trimAscii.toString
+  if t.isEmpty then
+    loop stdin stdout
+  else
+    let out := match Json.parse t >>= handle with
+      | .ok j => j.compress
+      | .error e => (Json.mkObj [("error", e)]).compress
+    stdout.putStrLn out
+    stdout.flush
+    loop stdin stdout
 
 def run : IO UInt32 := do
-  IO.eprintln "driver component Queue: not implemented"
-  return 3
+  loop (← IO.getStdin) (← IO.getStdout)
+  return 0
 
 end Driver.Queue
